@@ -123,7 +123,105 @@ def build():
         loops={0: dict(fingerprint='for n in weak_adj[item]', done='done0', invariant=LIN),
                1: dict(fingerprint='for n in adj[item]', done='done1', invariant=LIN + ['subset(done1, visited)']),
                2: dict(fingerprint='for n in loop_control[item]', done='done2', invariant=LIN + ['subset(adj[item], visited)'])})
+    build_soft(w, ADJ, MISSING)
     return w
+
+def build_soft(w, ADJ, MISSING):
+    """P3 + P4 (view `soft` of visit / sort_ex / sort).
+
+    P3  a CycleError that leaves the sort carries a witness: a closed walk through deps / merge / loop_control edges only.
+    P4  on normal return every in-graph weak dependency is ordered first -- unless a cycle error was swallowed, and then
+        there is a witness closed walk in the graph of all edges (so: soft edges are honoured whenever hard + soft edges
+        together are acyclic, and they never make the sort fail: only the hard-cycle error of P3 can leave it).
+    Ghost state: `stk` the DFS stack in order (visiting == set(stk)), `spos` the position of each visiting node on it,
+    (`cstk`, `cj`) the stack at the moment a CycleError is raised and the index of the repeated node, `SW` "a cycle error
+    has been swallowed", (`wstk`, `wj`) the walk of the first swallowed error.
+    """
+    w.define('E(x, y)', 'y in adj[x] or y in loop_control[x]')
+    w.define('EW(x, y)', 'y in adj[x] or y in weak_adj[x] or y in loop_control[x]')
+    w.define('CYC_FULL(s, j)', '0 <= j and j < len(s) and forall(j + 1, len(s), lambda i: EW(s[i - 1], s[i])) and EW(s[len(s) - 1], s[j])')
+    w.define('CYC_HARD(s, j)', '0 <= j and j < len(s) and forall(j + 1, len(s), lambda i: E(s[i - 1], s[i])) and E(s[len(s) - 1], s[j])')
+    w.define('SI()', ' and '.join('(%s)' % c for c in [
+        'forall(0, len(stk), lambda i: spos[stk[i]] == i and stk[i] in visiting)',
+        'forall(K, lambda x: implies(x in visiting, 0 <= spos[x] and spos[x] < len(stk) and stk[spos[x]] == x))',
+        'forall(1, len(stk), lambda i: EW(stk[i - 1], stk[i]))',
+        'implies(card(visiting_weak) == 0, forall(1, len(stk), lambda i: E(stk[i - 1], stk[i])))',
+        'subset(visiting_weak, visiting)']))
+    w.define('PI()', ' and '.join('(%s)' % c for c in [
+        'forall(K, K, lambda x, d: implies(x in visited and d in weak_adj[x], SW or (d in visited and pos[d] < pos[x])))',
+        'forall(K, lambda x: implies(x in visited, 0 <= pos[x] and pos[x] < len(order)))',
+        'forall(K, lambda x: implies(x in visiting, not (x in visited)))',
+        'forall(0, len(order), lambda i: pos[order[i]] == i and order[i] in visited and order[i] in nodes)',
+        'forall(K, K, lambda x, d: implies(EW(x, d), d in nodes))',
+        'implies(SW, CYC_FULL(wstk, wj))']))
+    ST = {'visiting': 'Set[K]', 'visiting_weak': 'Set[K]', 'visited': 'Set[K]', 'order': 'Seq[K]', 'pos': 'Fun[K,int]', 'nodes': 'Set[K]',
+          'stk': 'Seq[K]', 'spos': 'Fun[K,int]', 'cstk': 'Seq[K]', 'cj': 'int', 'SW': 'bool', 'wstk': 'Seq[K]', 'wj': 'int'}
+    ST.update(ADJ)
+    FRAME = ['SI()', 'PI()', 'visiting == old(visiting)', 'visiting_weak == old(visiting_weak)', 'stk == old(stk)', 'subset(old(visited), visited)', 'implies(old(SW), SW)']
+    IN = ['SI()', 'PI()', 'visiting == set_add(old(visiting), item)', 'visiting_weak == (set_add(old(visiting_weak), item) if weak_link else old(visiting_weak))',
+          'len(stk) == len(old(stk)) + 1 and stk[len(stk) - 1] == item and is_prefix(old(stk), stk)',
+          'subset(old(visited), visited)', 'not (item in old(visiting))', 'implies(old(SW), SW)']
+    w.contract(TOPO, 'sort_ex.<locals>.visit', view='soft', params={'item': 'K', 'for_control': 'bool', 'weak_link': 'bool'}, state=ST, returns='none',
+        requires=['SI()', 'PI()', 'implies(card(visiting_weak) > 0, weak_link)', 'item in nodes',
+                  # the edge this call follows (ghost view of the call site): from the top of the stack to `item`, a hard one unless weak_link
+                  'implies(len(stk) > 0, EW(stk[len(stk) - 1], item) and implies(not weak_link, E(stk[len(stk) - 1], item)))'],
+        modifies=['visiting', 'visiting_weak', 'visited', 'order', 'pos', 'stk', 'spos', 'cstk', 'cj', 'SW', 'wstk', 'wj'],
+        ensures=FRAME + ['item in visited or for_control or SW'],
+        raises={'CycleError': dict(ensures=FRAME + [
+            'CYC_FULL(cstk, cj)',                                   # every cycle error is a closed walk in the full graph
+            'implies(not weak_link, CYC_HARD(cstk, cj))'])},        # P3: reached through hard edges only => a hard closed walk
+        loops={0: dict(fingerprint='for n in weak_adj[item]', done='done0', invariant=IN + ['SW or subset(done0, visited)']),
+               1: dict(fingerprint='for n in adj[item]', done='done1', invariant=IN + ['SW or subset(weak_adj[item], visited)']),
+               2: dict(fingerprint='for n in loop_control[item]', done='done2', invariant=IN + ['SW or subset(weak_adj[item], visited)'])},
+        ghost_after={'visiting.add(item)': [('stk', 'stk + [item]'), ('spos', 'fun_set(spos, item, len(stk) - 1)')],
+                     'visiting.remove(item)': [('stk', 'seq_take(stk, len(stk) - 1)')],
+                     'cycle_item = item if len(vis_list) == 0 else vis_list[-1]': [('cstk', 'stk'), ('cj', 'spos[item]')],
+                     'pass': [('wstk', 'wstk if SW else cstk'), ('wj', 'wj if SW else cj'), ('SW', 'True')],
+                     'order.append(item)': [('pos', 'fun_set(pos, item, len(order) - 1)')]})
+
+    # ---- sort_ex / sort, view `soft`: the adjacency maps hold only edges of the graph (SOUND) and every in-graph weak edge (WCOMPLETE)
+    w.define('merge_of2(e)', 'some(e.merge) if not is_none(e.merge) else emptyset(K)')
+    w.define('HG(g, x, y)', 'x in g and y in g and (y in g[x].deps or y in merge_of2(g[x]) or y in g[x].loop_control)')         # hard edge of the input graph
+    w.define('FG(g, x, y)', 'x in g and y in g and (y in g[x].deps or y in merge_of2(g[x]) or y in g[x].loop_control or y in g[x].weak_deps)')
+    w.define('GCYC_HARD(g, s, j)', '0 <= j and j < len(s) and forall(j + 1, len(s), lambda i: HG(g, s[i - 1], s[i])) and HG(g, s[len(s) - 1], s[j])')
+    w.define('GCYC_FULL(g, s, j)', '0 <= j and j < len(s) and forall(j + 1, len(s), lambda i: FG(g, s[i - 1], s[i])) and FG(g, s[len(s) - 1], s[j])')
+    SOUND = ['forall(K, K, lambda x, d: implies(d in adj[x], x in graph and d in graph and (d in graph[x].deps or d in merge_of2(graph[x]))))',
+             'forall(K, K, lambda x, d: implies(d in weak_adj[x], x in graph and d in graph and d in graph[x].weak_deps))',
+             'forall(K, K, lambda x, d: implies(d in loop_control[x], x in graph and d in graph and d in graph[x].loop_control))']
+    WCOMPLETE = lambda dom: 'forall(K, K, lambda x, d: implies(x in %s and d in graph and d in graph[x].weak_deps, d in weak_adj[x]))' % dom
+    OUTER = ['nodes == domain(graph)', 'subset(D0, nodes)', WCOMPLETE('D0')] + SOUND
+    CUR = ['item_name in nodes', 'not (item_name in D0)', 'item == graph[item_name]']
+    W1 = OUTER + CUR + ['forall(K, lambda d: implies(d in D1 and d in graph, d in weak_adj[item_name]))']
+    WD = OUTER + CUR + ['forall(K, lambda d: implies(d in graph and d in item.weak_deps, d in weak_adj[item_name]))']
+    GH = {'pos': 'Fun[K,int]', 'nodes': 'Set[K]', 'stk': 'Seq[K]', 'spos': 'Fun[K,int]', 'cstk': 'Seq[K]', 'cj': 'int', 'SW': 'bool', 'wstk': 'Seq[K]', 'wj': 'int'}
+    OUTS = ['pos', 'cstk', 'cj', 'SW', 'wstk', 'wj']
+    w.contract(TOPO, 'sort_ex', view='soft', params={'graph': 'Map[K,Entry]', 'allow_unresolved': 'bool'}, ghost=GH,
+        returns='Seq[Tuple[K,Entry]]', requires=['nodes == domain(graph)', 'len(stk) == 0', 'not SW'],
+        ensures=[
+            # P4: every in-graph soft dependency is ordered first, unless there is a closed walk through the edges of the graph (witness)
+            'SW or forall(K, K, lambda x, d: implies(x in graph and d in graph and d in graph[x].weak_deps, pos[d] < pos[x]))',
+            'implies(SW, GCYC_FULL(graph, wstk, wj))',
+            'forall(0, len(result), lambda i: pos[result[i][0]] == i)'],
+        raises={'UnresolvedReferenceError': dict(only_if=MISSING),
+                # P3: a cycle error is reported only for a closed walk through deps / merge / loop_control edges of the graph
+                'CycleError': dict(ensures=['GCYC_HARD(graph, cstk, cj)'])},
+        loops={0: dict(fingerprint='for (item_name, item) in graph.items()', done='D0', cur='item_name0', invariant=OUTER),
+               1: dict(fingerprint='for dep in item.weak_deps', done='D1', invariant=W1),
+               2: dict(fingerprint='for merge in item.merge', done='D2', invariant=WD),
+               3: dict(fingerprint='for dep in item.deps', done='D3', invariant=WD),
+               4: dict(fingerprint='for ctrl in item.loop_control', done='D4', invariant=WD),
+               5: dict(fingerprint='for key in graph', done='D5', invariant=['SI()', 'PI()', 'nodes == domain(graph)', 'visiting == emptyset(K) and visiting_weak == emptyset(K)', 'len(stk) == 0',
+                                                                          'card(visiting) == 0 and card(visiting_weak) == 0',
+                                                                          'SW or subset(D5, visited)', WCOMPLETE('nodes'),
+                                                                          'forall(0, len(order), lambda i: pos[order[i]] == i)'] + SOUND)},
+        hints={'var_types': {'adj': 'Fun[K,Set[K]]', 'weak_adj': 'Fun[K,Set[K]]', 'loop_control': 'Fun[K,Set[K]]', 'visiting': 'Set[K]', 'visiting_weak': 'Set[K]',
+                             'visited': 'Set[K]', 'order': 'Seq[K]'}, 'ghost_out': OUTS})
+    w.contract(TOPO, 'sort', view='soft', params={'graph': 'Map[K,Entry]', 'allow_unresolved': 'bool'}, ghost=GH,
+        returns='Seq[Obj]', requires=['nodes == domain(graph)', 'len(stk) == 0', 'not SW'],
+        ensures=['SW or forall(K, K, lambda x, d: implies(x in graph and d in graph and d in graph[x].weak_deps, pos[d] < pos[x]))',
+                 'implies(SW, GCYC_FULL(graph, wstk, wj))'],
+        raises={'UnresolvedReferenceError': dict(only_if=MISSING), 'CycleError': dict(ensures=['GCYC_HARD(graph, cstk, cj)'])},
+        hints={'ghost_out': OUTS})
 
 def scenarios(tier, seed, repo_root, outdir):
     """bounded stand-in: small graphs through the real sort / normalize, against the property text"""
